@@ -325,7 +325,7 @@ theorem funsOk_of_kinds (l : FMap) (h : kindsOk l = true) : FunsOk (ctxOf [l, ba
       rcases hmem l hl with hm | ⟨k, hm⟩
       · simpa using hall _ hm
       · simpa using hall _ hm
-    simp [Callable.toFn, hk] at hd
+    simp [Callable.toFn, funcNameDirect_iff, hk] at hd
   | none =>
     rw [hl] at hc
     simp only [baseFns, FMap.get?] at hc
@@ -377,6 +377,136 @@ theorem compiled_same_log {cx : Ctx} (ht : Tame cx) (e : Expr) (env : List Val) 
 theorem cfgOk_default (fns : String → Option Fn) : CfgOk { fns := fns } := by
   refine ⟨?_, ?_, ?_⟩ <;> rfl
 
+/-! ### round 2: no memo, no leak -/
+
+/-- **A call site reached again is applied again** (no memo of results): evaluating `e + e` applies every host function
+reached in `e` twice, in order, whatever the functions, arguments and values are -/
+theorem repeated_site_applied_each_time {cx : Ctx} (ht : Tame cx) (env : List Val) (e : Expr) :
+    evalI cx env (.add e e) = (.ok (addT (den cx env e) (den cx env e)), sites cx env e ++ sites cx env e) := by
+  rw [evalI_spec ht]; rfl
+
+theorem repeated_call_applied_twice {cx : Ctx} (ht : Tame cx) (env : List Val) (f : String) (fn : Fn) (args : List Expr)
+    (hf : cx.fns f = some fn) (hh : fn.host = true) (hargs : firstErr (dens cx env args) = false) :
+    (evalI cx env (.add (.call f args) (.call f args))).2 =
+      (sitess cx env args ++ [(f, dens cx env args)]) ++ (sitess cx env args ++ [(f, dens cx env args)]) := by
+  rw [repeated_site_applied_each_time ht, site_applied_once env f fn args hf hh hargs]
+
+/-- the same in the transpiled program (quiet evaluations) -/
+theorem repeated_site_applied_each_time_compiled {cx : Ctx} (env : List Val) (e : Expr) (hq : Quiet cx env e)
+    (hs : (addT (den cx env e) (den cx env e)).isErr = false) :
+    (evalC cx env (.add e e)).2 = sitesE cx env e ++ sitesE cx env e := by
+  have hq2 : Quiet cx env (.add e e) := ⟨hq, hq, hs⟩
+  rw [evalC_quiet _ env hq2]; rfl
+
+/-- **`n` equal elements are `n` applications**: `[v, v, …, v].map(x, f(x))` applies `f` to `v` once per element -/
+theorem macro_equal_elements_each_applied {cx : Ctx} (ht : Tame cx) (env : List Val) (f : String) (fn : Fn) (v : Val) (n : Nat)
+    (hf : cx.fns f = some fn) (hh : fn.host = true) (hv : v.isErr = false) (hr : (applyV fn.fn [v]).isErr = false) :
+    (evalI cx env (.map (.lit (.list (List.replicate n v))) (.call f [.var 0]))).2 = List.replicate n (f, [v]) ∧
+    (evalI cx env (.all (.lit (.list (List.replicate n v))) (.call f [.var 0]))).2 = List.replicate n (f, [v]) := by
+  have hd : ∀ w : Val, dens cx (w :: env) [.var 0] = [w] := fun w => by simp [dens, den]
+  have hs : ∀ w : Val, w.isErr = false → sites cx (w :: env) (.call f [.var 0]) = [(f, [w])] := by
+    intro w hw
+    simp [sites, sitess, callSite, hf, hd, firstErr, hw, Fn.logOf, hh]
+  have hden : (den cx (v :: env) (.call f [.var 0])).isErr = false := by
+    simp [den, denCall, hf, hd, firstErr, hv, hr]
+  have hs2 : sitess cx (v :: env) [.var 0] ++ callSite cx f (dens cx (v :: env) [.var 0]) = [(f, [v])] := by
+    simpa [sites] using hs v hv
+  constructor
+  · rw [evalI_spec ht]
+    simp only [sites, den, List.nil_append]
+    rw [mapSites_replicate _ _ v hden n, hs2]
+    induction n with
+    | zero => rfl
+    | succ k ih => simp [List.replicate_succ, ih]
+  · rw [evalI_spec ht]
+    simp only [sites, den, List.nil_append]
+    rw [allSites_replicate _ v n, hs2]
+    induction n with
+    | zero => rfl
+    | succ k ih => simp [List.replicate_succ, ih]
+
+/-- **Evaluating a program again gives the same outcome again** (value and call log: every application happens again),
+and so does any later program equal to an earlier one — whatever was evaluated in between. -/
+theorem evaluate_again_same (w : World) (p : Program) (between : List Program) :
+    (w.run (p :: between ++ [p])).2.head? = some (w.evaluate p).2 ∧
+    (w.run (p :: between ++ [p])).2.getLast? = some (w.evaluate p).2 := by
+  refine ⟨by simp [override_local], ?_⟩
+  rw [override_local, List.map_append, List.map_singleton]
+  exact List.getLast?_concat ..
+
+/-- **a list binds every callable under its `__name__`; of several with the same name the LAST one** — for every list
+(generalises `list_binding_last_wins`), and every other name still reaches `base_functions` -/
+theorem list_binding_lookup (base : FMap) (fs : List Callable) (chain : List FMap)
+    (h : chainOf base (.list fs) = .ok chain) (n : String) :
+    chainGet? chain n = (match fs.reverse.find? (fun c => c.pyName == some n) with
+                         | some c => some c
+                         | none => base.get? n) := by
+  simp only [chainOf, bind, Except.bind] at h
+  cases hl : localOfList fs [] with
+  | error e => simp [hl] at h
+  | ok l =>
+    simp [hl] at h; subst h
+    rw [override_shadows, localOfList_get? fs [] l n hl]
+    cases fs.reverse.find? (fun c => c.pyName == some n) <;> simp [FMap.get?]
+
+/-! ### `func_name`: identity, not equality, not "wraps it" -/
+
+/-- an object as `func_name` sees it -/
+structure PyObj where
+  oid : Nat                      -- identity
+  fn : HostFn                    -- what calling it does
+  qual : Option String           -- `module.qualname` when both attributes exist
+  wrapped : Option Nat := none   -- identity of `__wrapped__`
+  equalsAll : Bool := false      -- `__eq__` answers True to everything
+
+/-- what the transpiled call site applies: the object the dotted text denotes in the namespace the generated code runs
+in when the guard lets `func_name` emit the text, else the activation's binding (the supplied object) -/
+def appliedBy (guard : PyObj → PyObj → Bool) (globals : String → Option PyObj) (supplied : PyObj) : HostFn :=
+  match supplied.qual.bind globals with
+  | some target => if guard target supplied then target.fn else supplied.fn
+  | none => supplied.fn
+
+/-- `target is func` -/
+def identityGuard (t f : PyObj) : Bool := t.oid == f.oid
+/-- the relaxed guards of realistic regressions: `target == func`; `target is func or target is func.__wrapped__` -/
+def equalityGuard (t f : PyObj) : Bool := t.oid == f.oid || f.equalsAll || t.equalsAll
+def wrappedGuard (t f : PyObj) : Bool := t.oid == f.oid || f.wrapped == some t.oid
+
+/-- **With the identity guard the transpiled call site applies the SUPPLIED callable**, for every namespace and every
+callable (wrappers carrying another function's name, objects equal to everything, renamed functions included), in a
+heap where identity determines the object. -/
+theorem func_name_applies_supplied (globals : String → Option PyObj) (supplied : PyObj)
+    (heap : ∀ t, supplied.qual.bind globals = some t → t.oid = supplied.oid → t.fn = supplied.fn) :
+    appliedBy identityGuard globals supplied = supplied.fn := by
+  unfold appliedBy
+  cases h : supplied.qual.bind globals with
+  | none => rfl
+  | some t =>
+    by_cases hg : identityGuard t supplied = true
+    · simp only [hg, if_true]; exact heap t h (by simpa [identityGuard] using hg)
+    · simp [hg]
+
+/-- … whereas the relaxed guards apply ANOTHER function: a `functools.wraps(size)` wrapper, an object equal to everything -/
+example : ∃ globals supplied, appliedBy wrappedGuard globals supplied [] ≠ supplied.fn [] :=
+  ⟨fun _ => some ⟨1, fun _ => .ret (.int 0), some "celpy.evaluation.function_size", none, false⟩,
+   ⟨2, fun _ => .ret (.int 77), some "celpy.evaluation.function_size", some 1, false⟩, by
+     simp [appliedBy, wrappedGuard]⟩
+example : ∃ globals supplied, appliedBy equalityGuard globals supplied [] ≠ supplied.fn [] :=
+  ⟨fun _ => some ⟨1, fun _ => .ret (.int 0), some "celpy.evaluation.function_size", none, false⟩,
+   ⟨2, fun _ => .ret (.int 77), some "celpy.evaluation.function_size", none, true⟩, by
+     simp [appliedBy, equalityGuard]⟩
+
+/-- the model's `direct` flag IS this decision: of the callable kinds only `evalVisible` (text denotes the object itself)
+gets dotted text; a wrapper of a built-in or of a visible function, an equal-to-all object and a renamed def do not -/
+theorem direct_iff_text_denotes_self (c : Callable) :
+    (Callable.toFn c).direct = true ↔ (c.kind.qualified = true ∧ c.kind.denotes = .self) := by
+  simp [Callable.toFn, funcNameDirect]
+
+theorem lookalikes_not_direct (c : Callable)
+    (h : c.kind = .wrapsBuiltin ∨ c.kind = .wrapsVisible ∨ c.kind = .equalToAll ∨ c.kind = .renamedDef) :
+    (Callable.toFn c).direct = false := by
+  rcases h with h | h | h | h <;> simp [Callable.toFn, funcNameDirect, h, CKind.denotes, CKind.qualified]
+
 /-! ### non-vacuity and the recorded findings, inside the model -/
 
 section examples
@@ -410,6 +540,19 @@ example : Quiet exCx [] (.all (.lit (.list [.int 1, .int 2])) (.lt (.call "f" [.
     exact ⟨⟨⟨⟨⟨_, rfl, rfl⟩, trivial⟩, rfl⟩, rfl, rfl⟩, rfl⟩
 example : (evalC exCx [] (.all (.lit (.list [.int 1, .int 2])) (.lt (.call "f" [.var 0]) (.lit (.int 1000))))).2 =
     [("f", [.int 1]), ("f", [.int 2])] := by rfl
+/-- round 2 — a site reached again is applied again: `f(1) + f(1)`, `[5, 5, 5].map(x, f(x))`, on both runners -/
+example : Funcs.runI exCx (.add (.call "f" [.lit (.int 1)]) (.call "f" [.lit (.int 1)])) =
+    (.ok (.int 202), [("f", [.int 1]), ("f", [.int 1])]) := by rfl
+example : Funcs.runC exCx (.add (.call "f" [.lit (.int 1)]) (.call "f" [.lit (.int 1)])) =
+    (.ok (.int 202), [("f", [.int 1]), ("f", [.int 1])]) := by rfl
+example : (Funcs.runI exCx (.map (.lit (.list (List.replicate 3 (.int 5)))) (.call "f" [.var 0]))).2 =
+    List.replicate 3 ("f", [.int 5]) := by rfl
+/-- … and the hypotheses of `macro_equal_elements_each_applied` are satisfiable -/
+example : exCx.fns "f" = some (Callable.toFn (exFns.get? "f").get!) ∧ (applyV (Callable.toFn (exFns.get? "f").get!).fn [.int 5]).isErr = false := by
+  exact ⟨rfl, rfl⟩
+/-- a list with two callables named `f`: the last one is bound -/
+example : (chainOf baseFns (.list [⟨some "f", .lambda, fun _ => .ret (.int 1), false⟩, ⟨some "f", .nestedDef, fun _ => .ret (.int 2), false⟩])).toOption.map
+    (fun ch => (chainGet? ch "f").map (fun c => c.fn [])) = some (some (.ret (.int 2))) := by rfl
 /-- **finding D41** in the model: the transpiled `true ? f(1) : f(2)` applies `f` to 2 as well -/
 example : (Funcs.runI exCx (.cond (.lit (.bool true)) (.call "f" [.lit (.int 1)]) (.call "f" [.lit (.int 2)]))).2 = [("f", [.int 1])] ∧
     (Funcs.runC exCx (.cond (.lit (.bool true)) (.call "f" [.lit (.int 1)]) (.call "f" [.lit (.int 2)]))).2 = [("f", [.int 1]), ("f", [.int 2])] := by
